@@ -13,7 +13,7 @@ RULE = ("complete matrices: every dispatched and several undispatched operations
         "objects of every type under every version; followed by seeded histories with version switches; "
         "non-trivial = every matrix cell")
 VERS = [10, 11, 12, 13, 14, 20]
-BAD_VERS = [9, 15, 21, 30]
+BAD_VERS = [9, 15, 21, 30, 1010, 1020, 1040, 1100, 2010]    # from 1000 on: 1000*major + minor (1.10, 1.20, ...)
 # KMIP specification: first version that defines the operation / attribute (independent of the code)
 SPEC_MIN_OP = {"discoverVersions": 11, "encrypt": 12, "decrypt": 12, "sign": 12, "signatureVerify": 12, "mac": 12,
                "setAttribute": 20}
